@@ -62,6 +62,8 @@ inductive Stmt
   | select
   | begin | commit | rollback
   | commitConflict                             -- COMMIT that fails with a commit-time conflict (raised to the caller)
+  | connExit                                   -- leaving a `with connect(...) as conn:` / `with conn.cursor():` block:
+                                               -- `__exit__` does nothing (`conn.py:113-119`) – in particular it is NOT a commit
 deriving DecidableEq, Repr
 
 /-- MERGE's engine calls before repair 0e75b9f (`extract_comment_on_table` tagged every CREATE with properties, so the
@@ -91,6 +93,7 @@ def calls : Stmt → List Call
   | .begin => [.begin]
   | .commit => [.commit]
   | .commitConflict => [.commitFail]
+  | .connExit => []
   | .rollback => [.rollback]         -- (COMMIT/ROLLBACK are only generated inside a transaction: one call each)
 
 /-- the engine: durable log + buffered effects of the open transaction -/
